@@ -31,6 +31,10 @@ class Doc:
         if top or k < 0.8:
             keys = r.sample(KEYS, r.randint(2 if top else 0, 5))
             return {kk: self.gen(depth - 1) for kk in keys}
+        if r.random() < 0.4:
+            # records: an array of objects that share members (`friends.#.first` addresses all of them at once)
+            return [dict([('first', r.choice(['Dale', 'Roger', 'Jane', '', 'é'])), ('age', r.choice([44, 68, 47]))] +
+                         ([('nets', self.gen(depth - 2))] if r.random() < 0.4 else [])) for _ in range(r.randint(1, 3))]
         return [self.gen(depth - 1) for _ in range(r.randint(0, 3))]
 
     def index(self, v, gp, fp):
@@ -94,7 +98,10 @@ def replace_subtree(flat, fpath, newflat):
 
 
 PLACEHOLDERS = ['"<Any value>"', '"x"', '"a much longer placeholder than the value it replaces"', '"needs \\"esc\\""', '"é"', 'true', 'null',
-                '7', '{"r":1}', '[1,"a"]', '""']
+                '7', '{"r":1}', '[1,"a"]', '""',
+                # strings with bytes that Go string literals and JSON strings escape differently (an ANSI colour
+                # code, NUL, BEL, DEL, a non-printable rune beyond the BMP): the replacement is still that string
+                '"\\u001b[31mred\\u001b[0m"', '"nul\\u0000byte"', '"bell\\u0007"', '"del\\u007f"', '"tag\\udb40\\udc01"']
 
 
 # Configuration style of the built-in matchers.  A generator sets STYLE to its random.Random: a share of
